@@ -136,6 +136,29 @@ def gen_prefix_group_grammar(rng, terms, start='E', max_nts=3):
     return prods
 
 
+def gen_shared_rhs_candidate(rng, terms, start='E'):
+    """LL(1) candidates in which two different symbols have an identical alternative that ends in
+    a nullable symbol N, and are used in contexts with different followers: FOLLOW(N) must
+    collect the followers of both."""
+    x, y, p, c = rng.sample(terms, 4) if len(terms) >= 4 else (terms * 4)[:4]
+    others = [t for t in terms if t not in (x, y)]
+    n_tok = rng.choice(others) if others else x
+    a_name, c_name, n_name = rng.sample([nm for nm in NT_NAMES if nm != start], 3)
+    shared = (p, n_name) if rng.random() < 0.7 else (n_name,)
+    extra_a = [(y,)] if rng.random() < 0.3 and y not in shared else []
+    prods = {
+        start: [(x, a_name, x), (c, c_name, y)] if c != x else [(x, a_name, x), (y, c_name, y)],
+        a_name: [shared] + extra_a,
+        c_name: [shared],
+        n_name: [(n_tok,), ()] if rng.random() < 0.5 else [(), (n_tok,)],
+    }
+    if rng.random() < 0.5:
+        prods[start].reverse()
+    items = list(prods.items())
+    rng.shuffle(items)
+    return dict(items)
+
+
 def shuffle_declaration_order(rng, prods):
     """the same grammar with its symbols declared in another order (dict order)"""
     items = list(prods.items())
